@@ -162,7 +162,7 @@ def ch_emsg(ctx):
         "recovers the fields; non-trivial = payload present and id > 0; distinct by encoded bytes"))
     rng = ctx.rng("emsg")
     cases = corpus_cases("emsg")
-    n = ctx.scale(2500, 45000)
+    n = ctx.scale(2500, 36000)
     cases += [E.gen_case(rng, ctx.thorough) for _ in range(n)]
     try:
         model = E.run_driver([E.driver_line(c) for c in cases])
@@ -462,7 +462,7 @@ def ch_scte35(ctx):
         "splice_null or at least one descriptor; distinct by encoded bytes"))
     rng = ctx.rng("scte35")
     sigs = [S.signal_from_json(j) for j in corpus_json("scte35")]
-    sigs += [S.gen_signal(rng) for _ in range(ctx.scale(2500, 40000))]
+    sigs += [S.gen_signal(rng) for _ in range(ctx.scale(2500, 30000))]
     datas = []
     for sig in sigs:
         try:
